@@ -30,7 +30,10 @@ def walkBlock (c : Cfg) (cells : List Cell) (base lim : Nat) : Nat → Nat → N
     | none => (used, n)
     | some x =>
       let used' := used + c.metaSz + x.pay.len
-      if used' + c.metaSz > lim then (used', n + 1)
+      -- `Block::read` refuses an entry that extends past its block (fix e6ef503): possible only when the limit
+      -- derived from the first entry is smaller than the block the writer had allocated
+      if used' > lim then (used, n)
+      else if used' + c.metaSz > lim then (used', n + 1)
       else walkBlock c cells base lim fuel used' (n + 1)
 
 structure ScanSt where
